@@ -75,7 +75,13 @@ func genSet(r *sim.RNG, forceTarget int) sim.Step {
 		return pool[r.Intn(len(pool))]
 	}
 	for i := 0; i < n; i++ {
-		switch r.Pick([]int{12, 2, 4}) {
+		switch r.Pick([]int{12, 2, 4, 2}) {
+		case 3:
+			// several unknown keys in one request (what the contract says about them must not
+			// depend on the order in which it happens to meet them)
+			for _, j := range r.Perm(len(junkKeys))[:min(len(junkKeys), 2+r.Intn(3))] {
+				st.S = append(st.S, junkKeys[j], val(junkKeys[j]))
+			}
 		case 0:
 			k := tg.keys[r.Intn(len(tg.keys))]
 			if tg.trim && r.Bool(0.1) {
